@@ -267,6 +267,39 @@ func checkC07(c *Ctx, w *World) {
 	pl.whoMayWrite("C07.count", "subConnRef.lastResp", map[string][]string{fname(gotResp): {"store"}, fname(pl.uscs): {"store"}})
 	pl.whoMayWrite("C07.count", "subConnRef.refreshCnt", map[string][]string{fname(gotResp): {"store"}, fname(pl.uscs): {"store"}})
 
+	// ---- C07.init: "more than the detection period has passed since the last response" — for a channel that has not had
+	// a response yet the period counts from its creation: every new slot starts with lastResp = now
+	{
+		nnew := 0
+		for _, a := range pl.ai.ByField["gcpBalancer.scRefs"] {
+			mu, ok := a.Instr.(*ssa.MapUpdate)
+			if !ok || a.What != "map-insert" {
+				continue
+			}
+			for _, o := range origins(mu.Value) {
+				al, isAl := o.Val.(*ssa.Alloc)
+				if !isAl || shortType(al.Type()) != "*grpcgcp.subConnRef" {
+					continue // an existing slot re-keyed at the swap
+				}
+				nnew++
+				stamped := false
+				for _, r := range *al.Referrers() {
+					fa, isFA := r.(*ssa.FieldAddr)
+					if !isFA || fieldRefOfAddr(fa) != "subConnRef.lastResp" {
+						continue
+					}
+					for _, st := range storesTo(fa) {
+						if isNow(st.Val) && dominatesInstr(st, mu) {
+							stamped = true
+						}
+					}
+				}
+				c.check(stamped, "C07.init", "new slot in "+fname(a.Fn)+": lastResp", p.ipos(mu), "a new slot is registered with lastResp = time.Now()", "a new channel starts with a zero 'last response' time: its first deadline-exceeded calls trigger a refresh whatever the detection period")
+			}
+		}
+		c.floor("C07.init", nnew, 1)
+	}
+
 	// ---- C07.window
 	checkWindow(pl, win)
 
@@ -292,39 +325,65 @@ func checkC07(c *Ctx, w *World) {
 		}
 	})
 	c.check(nsc == 1, "C07.once", "refresh: one creation site", p.pos(refresh.Pos()), "exactly one NewSubConn call", fmt.Sprintf("%d NewSubConn calls", nsc))
-	var setTrue []*ssa.Store
-	var setFalse, registers = map[ssa.Instruction]bool{}, map[ssa.Instruction]bool{}
+	// the flag's stores, per value: a store of a computed flag (`ref.refreshing = ok`) counts as a set on the ways on which the
+	// value is true and as a reset on the ways on which it is false
+	type flagStore struct {
+		st *ssa.Store
+		c  Bits
+	}
+	var setTrue, setFalse []flagStore
+	var registers []*ssa.MapUpdate
+	undetermined := ""
 	for _, a := range pl.ai.ByFn[refresh] {
 		if a.Field == "subConnRef.refreshing" && a.What == "store" {
 			st := a.Instr.(*ssa.Store)
-			if cst, ok := st.Val.(*ssa.Const); ok && cst.Value != nil && cst.Value.String() == "true" {
-				setTrue = append(setTrue, st)
-			} else if ok && cst.Value != nil && cst.Value.String() == "false" {
-				setFalse[st] = true
+			for _, rv := range rcs.ResolveWithConds(st.Val, rcs.Reach(st)) {
+				cst, ok := rv.V.(*ssa.Const)
+				switch {
+				case ok && cst.Value != nil && cst.Value.String() == "true":
+					setTrue = append(setTrue, flagStore{st, rv.C})
+				case ok && cst.Value != nil && cst.Value.String() == "false":
+					setFalse = append(setFalse, flagStore{st, rv.C})
+				default:
+					undetermined = "the flag is assigned " + vstr(rv.V) + " at " + p.ipos(st)
+				}
 			}
 		}
 		if a.Field == "gcpBalancer.refreshingScRefs" && a.What == "map-insert" {
 			mu := a.Instr.(*ssa.MapUpdate)
-			if mu.Value == ssa.Value(ref) {
-				if e, ok := mu.Key.(*ssa.Extract); ok && e.Index == 0 && len(creations) == 1 && e.Tuple == creations[0].(ssa.Value) {
-					registers[mu] = true
+			if cellValue(mu.Value) == ssa.Value(ref) && len(creations) == 1 {
+				own := true
+				keys := rcs.ResolveUnder(mu.Key, rcs.Reach(mu))
+				for _, k := range keys {
+					if e, ok := k.(*ssa.Extract); !ok || e.Index != 0 || e.Tuple != creations[0].(ssa.Value) {
+						own = false
+					}
+				}
+				if own && len(keys) > 0 {
+					registers = append(registers, mu)
 				}
 			}
 		}
 	}
+	c.check(undetermined == "", "C07.once", "refresh: flag values", p.pos(refresh.Pos()), "every store to the flag in refresh() stores a value that is true or false on each way", undetermined)
 	c.floor("C07.once:set", len(setTrue), 1)
-	for _, st := range setTrue {
-		imp, wit := rcs.Implies(rcs.Reach(st), rcs.Not(rcs.Atom("refreshingLocked")))
-		targets := map[ssa.Instruction]bool{}
-		for k := range setFalse {
-			targets[k] = true
+	for _, fs := range setTrue {
+		st := fs.st
+		imp, wit := rcs.Implies(fs.c, rcs.Not(rcs.Atom("refreshingLocked")))
+		followed := rcs.False()
+		for _, mu := range registers {
+			if mayPrecede(st, mu) {
+				followed = or(followed, rcs.Reach(mu))
+			}
 		}
-		for k := range registers {
-			targets[k] = true
+		for _, sf := range setFalse {
+			if sf.st != st && mayPrecede(st, sf.st) {
+				followed = or(followed, sf.c)
+			}
 		}
-		closed := everyPathHits(st, targets)
+		closed, wit2 := rcs.Implies(fs.c, followed)
 		c.check(imp && pl.lf.HeldAt(st)["gcpBalancer.mu"] == 2, "C07.once", "refresh: flag set", p.ipos(st), "flag set only after it was read false in the same critical section", "refreshing flag set without testing it under the lock: "+wit)
-		c.check(closed, "C07.once", "refresh: flag set ⇒ registered ∨ reset", p.ipos(st), "every path that set the flag registers the replacement under its own key in refreshingScRefs or resets the flag before returning", "a path sets the refreshing flag and returns without registering a replacement or resetting it: no later refresh can ever start for this channel")
+		c.check(closed, "C07.once", "refresh: flag set ⇒ registered ∨ reset", p.ipos(st), "every way that set the flag registers the replacement under its own key in refreshingScRefs or resets the flag before returning", "a way sets the refreshing flag and returns without registering a replacement or resetting it: no later refresh can ever start for this channel: "+wit2)
 	}
 	pl.whoMayWrite("C07.once", "subConnRef.refreshing", map[string][]string{fname(refresh): {"store"}, fname(pl.uscs): {"store"}})
 	pl.flagClearedOnlyAtSwap("C07.once-clear")
@@ -605,13 +664,26 @@ func (pl *pool) flagClearedOnlyAtSwap(rule string) {
 	}
 	swap := cs.And(cs.Atom("found"), cs.Atom("sReady"))
 	n := 0
+	rfs := newCondSpace(refresh, nil)
 	for _, a := range pl.ai.ByField["subConnRef.refreshing"] {
 		st, ok := a.Instr.(*ssa.Store)
 		if !ok || freshAt(a.Base, a.Instr) {
 			continue
 		}
-		cst, isC := st.Val.(*ssa.Const)
-		if !isC || cst.Value == nil || cst.Value.String() != "false" {
+		// the ways on which this store clears the flag (a computed flag is resolved per way)
+		var clears Bits
+		isClear := false
+		if a.Fn == refresh {
+			for _, rv := range rfs.ResolveWithConds(st.Val, rfs.Reach(st)) {
+				if cst, isC := rv.V.(*ssa.Const); isC && cst.Value != nil && cst.Value.String() == "true" {
+					continue
+				}
+				clears, isClear = or(clears, rv.C), true
+			}
+		} else if cst, isC := st.Val.(*ssa.Const); !isC || cst.Value == nil || cst.Value.String() != "true" {
+			isClear = true
+		}
+		if !isClear {
 			continue
 		}
 		n++
@@ -628,14 +700,14 @@ func (pl *pool) flagClearedOnlyAtSwap(rule string) {
 			}
 			c.check(imp && unreg, rule, construct, p.ipos(st), "cleared only in the swap, where the replacement is unregistered and takes over", "the flag is cleared while a replacement may still be registered (a second replacement can be created for the same channel): "+wit)
 		case refresh:
-			// no registration on any path through this store
+			// no registration on any way through this clearing store
 			reg := false
 			for _, b := range pl.ai.ByFn[refresh] {
-				if b.Field == "gcpBalancer.refreshingScRefs" && b.What == "map-insert" && (mayPrecede(b.Instr, st) || mayPrecede(st, b.Instr)) {
+				if b.Field == "gcpBalancer.refreshingScRefs" && b.What == "map-insert" && (mayPrecede(b.Instr, st) || mayPrecede(st, b.Instr)) && rfs.Satisfiable(and(clears, rfs.Reach(b.Instr))) {
 					reg = true
 				}
 			}
-			c.check(!reg, rule, construct, p.ipos(st), "cleared only on the path where no replacement was registered (creation failed)", "the flag is cleared on a path that registers a replacement")
+			c.check(!reg, rule, construct, p.ipos(st), "cleared only on the way on which no replacement was registered (creation failed)", "the flag is cleared on a way that registers a replacement")
 		default:
 			c.fail(rule, construct, p.ipos(st), "the refresh-in-progress flag is cleared outside refresh() and the swap")
 		}
